@@ -669,12 +669,12 @@ Proof.
 Qed.
 
 Definition one_spec (f : nat) : Prop :=
-  forall c L (Q : unit -> Z -> Z -> Prop), L < Lmax -> 2 * L + 1 <= Z.of_nat f -> (chk = true -> 0 <= c) ->
-    (forall c' L', L' <= L - 1 -> (chk = true -> c + 100 <= c') -> Q tt c' L') ->
+  forall c L (Q : unit -> Z -> Z -> Prop), L < Lmax -> 2 * Z.max L 0 + 1 <= Z.of_nat f -> (chk = true -> 0 <= c) ->
+    (forall c' L', 1 <= L -> L' <= L - 1 -> (chk = true -> c + 100 <= c') -> Q tt c' L') ->
     wpc (cbor2JsonOneObject Orc f) c L Q.
 
 Definition loop_spec (loop : nat -> bool -> Z -> Z -> prog unit) (f : nat) : Prop :=
-  forall indef i ln c L (Q : unit -> Z -> Z -> Prop), L < Lmax -> 2 * L + 2 <= Z.of_nat f -> (chk = true -> 2 <= c) ->
+  forall indef i ln c L (Q : unit -> Z -> Z -> Prop), L < Lmax -> 2 * Z.max L 0 + 2 <= Z.of_nat f -> (chk = true -> 2 <= c) ->
     (forall c' L', L' <= L -> (chk = true -> c - 2 <= c') -> Q tt c' L') ->
     wpc (loop f indef i ln) c L Q.
 
@@ -684,9 +684,7 @@ Proof. reflexivity. Qed.
 Lemma decoder_wp f : one_spec f /\ loop_spec (array_loop Orc) f /\ loop_spec (map_loop Orc) f.
 Proof.
   induction f as [|f (IHone & IHarr & IHmap)].
-  { repeat split; intros until Q; intros HLm Hf; exfalso; [|lia|lia].
-    cbn in Hf. (* one 0: 2L+1 <= 0 *)
-    admit_one0. }
+  { repeat split; intros until Q; intros HLm Hf; exfalso; lia. }
   repeat split.
   - (* cbor2JsonOneObject (S f) *)
     intros c L Q HLm Hf Hc HQ. cbn [cbor2JsonOneObject wp]. intros HL pb.
@@ -694,16 +692,16 @@ Proof.
     { cbn [wp]. rewrite lenZ_1. split; [ck; unfold Dd; lia|].
       apply wp_bind. apply wp_readByte. intros HL1 b. destruct (negb _); [exact I|].
       apply wp_bind. apply wp_container_header; [ck; unfold Cc; lia|]. intros h c1 L1 H1 H2.
-      apply IHarr; [lia|lia|ck; unfold Cc in *; lia|]. intros c2 L2 H3 H4. apply HQ; [lia|ck; unfold Cc in *; lia]. }
+      apply IHarr; [lia|lia|ck; unfold Cc in *; lia|]. intros c2 L2 H3 H4. apply HQ; [lia|lia|ck; unfold Cc in *; lia]. }
     destruct (major_of pb =? majorTypeMap)%N.
     { apply wp_bind. apply wp_readByte. intros HL1 b. destruct (negb _); [exact I|].
       apply wp_bind. apply wp_container_header; [ck; unfold Cc; lia|]. intros h c1 L1 H1 H2.
       cbn [wp]. rewrite lenZ_1. split; [ck; unfold Dd, Cc in *; lia|].
-      apply IHmap; [lia|lia|ck; unfold Cc in *; lia|]. intros c2 L2 H3 H4. apply HQ; [lia|ck; unfold Cc in *; lia]. }
+      apply IHmap; [lia|lia|ck; unfold Cc in *; lia|]. intros c2 L2 H3 H4. apply HQ; [lia|lia|ck; unfold Cc in *; lia]. }
     apply wp_bind. apply wp_leaf; auto. intros s c1 L1 H1 H2. pose proof (lenZ_nonneg s) as Hs0.
     assert (Hlen : Z.of_N (len s) = lenZ s) by (unfold len, lenZ; lia).
     cbn [wp]. rewrite Hlen. split; [ck; unfold Dd; lia|]. split; [ck; unfold Dd; lia|].
-    apply HQ; [lia|ck; lia].
+    apply HQ; [lia|lia|ck; lia].
   - (* array_loop (S f) *)
     intros indef i ln c L Q HLm Hf Hc HQ. cbn [array_loop]. cbv zeta.
     assert (Body : forall c0 L0, L0 <= L -> (chk = true -> c <= c0) ->
@@ -713,7 +711,7 @@ Proof.
                                    else PWrite [44%N] (array_loop Orc f indef (i + 1) ln))
              else if i + 1 <? ln then PWrite [44%N] (array_loop Orc f indef (i + 1) ln)
                   else array_loop Orc f indef (i + 1) ln)) c0 L0 Q).
-    { intros c0 L0 HL0 Hc0. apply wp_bind. apply IHone; [lia|lia|ck; lia|]. intros c1 L1 H1 H2.
+    { intros c0 L0 HL0 Hc0. apply wp_bind. apply IHone; [lia|lia|ck; lia|]. intros c1 L1 HL0' H1 H2.
       destruct indef.
       - cbn [wp]. intros HL1 pb1. destruct (is_break_byte pb1).
         + cbn [wp]. intros _ _. rewrite lenZ_1. split; [ck; unfold Dd, Cc; lia|]. apply HQ; [lia|ck; unfold Cc; lia].
@@ -740,7 +738,7 @@ Proof.
                                    else PWrite [44%N] (map_loop Orc f indef (i + 1) ln))
              else if i + 1 <? ln then PWrite [44%N] (map_loop Orc f indef (i + 1) ln)
                   else map_loop Orc f indef (i + 1) ln)) c0 L0 Q).
-    { intros c0 L0 HL0 Hc0. apply wp_bind. apply IHone; [lia|lia|ck; lia|]. intros c1 L1 H1 H2.
+    { intros c0 L0 HL0 Hc0. apply wp_bind. apply IHone; [lia|lia|ck; lia|]. intros c1 L1 HL0' H1 H2.
       destruct (i mod 2 =? 0).
       { cbn [wp]. rewrite lenZ_1. split; [ck; unfold Dd; lia|].
         apply IHmap; [lia|lia|ck; lia|]. intros c2 L2 H3 H4. apply HQ; [lia|ck; lia]. }
@@ -762,3 +760,87 @@ Proof.
       * cbn [wp]. rewrite lenZ_1. split; [ck; unfold Dd; lia|]. apply HQ; [lia|ck; lia].
 Qed.
 End DecoderWP.
+
+(* ---- the stream loop and the observable result ---- *)
+Section Top.
+Variable chk : bool.
+Variable Orc : oracle.
+Hypothesis Hob : chk = true -> oracle_bounded Orc.
+
+Lemma many_inv f : forall s,
+  lenZ (rest s) < Lmax -> 2 * lenZ (rest s) + 2 <= Z.of_nat f ->
+  match many Orc f s with
+  | Ret _ s' => chk = true -> Psi s' <= Psi s
+  | Fail _ s' => chk = true -> Psi s' <= Psi s + Dd
+  | Crash _ _ => False
+  | OOF => False
+  end.
+Proof.
+  induction f as [|f IH]; intros s HLm Hf; [pose proof (lenZ_nonneg (rest s)); lia|].
+  cbn [many]. destruct (rest s) as [|b t] eqn:Er; [intros _; lia|]. rewrite <- Er in HLm, Hf.
+  pose proof (lenZ_nonneg (rest s)) as H0.
+  pose proof (proj1 (decoder_wp chk Orc Hob f) 0 (lenZ (rest s))
+                (fun _ c' L' => L' <= lenZ (rest s) - 1 /\ (chk = true -> 100 <= c'))
+                HLm ltac:(lia) ltac:(intros; lia)
+                ltac:(intros c' L' _ H1 H2; split; [lia|intros Hk; specialize (H2 Hk); lia])) as W.
+  pose proof (wp_sound chk _ _ _ _ s W ltac:(lia) ltac:(intros; unfold Dd; lia)) as S.
+  destruct (run (cbor2JsonOneObject Orc f) s) as [x s'|k s'|k s'|]; auto.
+  - destruct S as (c' & L' & (HL' & Hc') & HR & HP).
+    specialize (IH (write_nl s')). cbn [write_nl rest] in IH.
+    specialize (IH ltac:(lia) ltac:(lia)).
+    destruct (many Orc f (write_nl s')) as [y s''|k s''|k s''|]; auto.
+    + intros Hk. specialize (IH Hk). specialize (HP Hk). specialize (Hc' Hk).
+      unfold Psi, write_nl in *. cbn [rest alloc] in *. lia.
+    + intros Hk. specialize (IH Hk). specialize (HP Hk). specialize (Hc' Hk).
+      unfold Psi, write_nl in *. cbn [rest alloc] in *. lia.
+  - intros Hk. specialize (S Hk). lia.
+Qed.
+End Top.
+
+Definition fits_memory (bs : list N) : Prop := lenZ bs < 2 ^ 60.
+
+Lemma fuel_for_ok bs : 2 * lenZ bs + 2 <= Z.of_nat (fuel_for bs).
+Proof. unfold fuel_for, lenZ. lia. Qed.
+
+(* for EVERY oracle (any answers, even missing ones): enough fuel, no runtime panic *)
+Theorem decoder_total Orc bs : fits_memory bs ->
+  match cbor2json Orc bs with
+  | (_, FOk, _) | (_, FErr _, _) => True
+  | (_, FRuntimePanic _, _) | (_, FOutOfFuel, _) => False
+  end.
+Proof.
+  intros Hm. unfold cbor2json.
+  pose proof (many_inv false Orc ltac:(discriminate) (fuel_for bs) (mkst bs [] 0%N) Hm (fuel_for_ok bs)) as H.
+  destruct (many Orc (fuel_for bs) (mkst bs [] 0%N)); auto.
+Qed.
+
+(* allocation is linear in the input: <= 256 per byte + 8192 *)
+Theorem decoder_alloc_linear Orc bs : fits_memory bs -> oracle_bounded Orc ->
+  let '(_, _, a) := cbor2json Orc bs in Z.of_N a <= 256 * lenZ bs + 8192.
+Proof.
+  intros Hm Hb. unfold cbor2json.
+  pose proof (many_inv true Orc (fun _ => Hb) (fuel_for bs) (mkst bs [] 0%N) Hm (fuel_for_ok bs)) as H.
+  destruct (many Orc (fuel_for bs) (mkst bs [] 0%N)) as [x s|k s|k s|]; try contradiction.
+  - specialize (H eq_refl). unfold Psi, Cc in *. cbn [rest alloc] in *. pose proof (lenZ_nonneg (rest s)). lia.
+  - specialize (H eq_refl). unfold Psi, Cc, Dd in *. cbn [rest alloc] in *. pose proof (lenZ_nonneg (rest s)). lia.
+Qed.
+
+(* the other entry points *)
+Theorem decodeIfBinary_total Orc bs : fits_memory bs ->
+  snd (decodeIfBinaryToBytes Orc bs) = FOk.
+Proof.
+  intros Hm. unfold decodeIfBinaryToBytes. destruct (binaryFmt bs); [|reflexivity].
+  pose proof (decoder_total Orc bs Hm) as H. destruct (cbor2json Orc bs) as [[out f] a].
+  destruct f; try contradiction; reflexivity.
+Qed.
+
+Theorem decodeObject_total Orc bs : fits_memory bs ->
+  match snd (decodeObjectToStr Orc bs) with FRuntimePanic _ | FOutOfFuel => False | _ => True end.
+Proof.
+  intros Hm. unfold decodeObjectToStr. destruct (binaryFmt bs); [|exact I].
+  pose proof (lenZ_nonneg bs) as H0.
+  pose proof (proj1 (decoder_wp false Orc ltac:(discriminate) (fuel_for bs)) 0 (lenZ bs) (fun _ _ _ => True)
+                Hm ltac:(pose proof (fuel_for_ok bs); lia) ltac:(discriminate) ltac:(intros; exact I)) as W.
+  pose proof (wp_sound false _ _ _ _ (mkst bs [] 0%N) W ltac:(cbn; lia) ltac:(discriminate)) as S.
+  destruct (run _ _); cbn [snd]; auto.
+Qed.
